@@ -62,8 +62,9 @@ ASSUMPTIONS = [
     "<For> rows are not generated",
     "leptos kind, idle points at which some resource is still loading: what a <Suspense> / a not yet established "
     "<Transition> shows there depends on whether its readers ran before or after the fetch task marked the resource as "
-    "loading and on readers that were mounted only in the middle of the step (the schedule decides): the oracle demands "
-    "'children or fallback, nothing else' for them, 'children' for a Transition that had its children on screen at an "
+    "loading and on readers that were mounted only in the middle of the step (the schedule decides): for a boundary whose "
+    "own subtree reads (under whatever Show / For conditions) a resource that is loading at that point the oracle demands "
+    "'children or fallback, nothing else' (a boundary that reads no loading resource must show its children), 'children' for a Transition that had its children on screen at an "
     "idle point with nothing loading, and judges everything else (texts, attributes, <Show> branches, <For> rows, "
     "ErrorBoundary) strictly; with nothing loading every boundary must show its children and equal a fresh mount",
     "a boundary that is mounted by a step (a <Show> / <For> / ErrorBoundary switching to it) whose writes also re-trigger a "
@@ -718,7 +719,11 @@ def lnodes(t, s, res, shown=frozenset(), touched=frozenset()):
             return children + [f for f in fallback if f not in children]
         if t[2] & 1 and t[1] in shown:
             return children
-        if _PENDING_POINT[0]:
+        static_readers = set().union(*[readers(k) for k in t[3]]) if t[3] else set()
+        if _PENDING_POINT[0] and any(res[r][1] for r in static_readers):
+            # (only for a boundary whose own subtree — under whatever <Show> / <For> conditions, nested boundaries
+            # aside — reads a resource that is loading now: a boundary that reads no loading resource shows its
+            # children, strictly)
             # while some resource is loading, what a boundary shows depends on whether its readers ran before or
             # after the fetch task marked the resource as loading, and on readers that were mounted only in the
             # middle of the step: the schedule decides. Demanded here: children or fallback, nothing else (and an
